@@ -113,7 +113,7 @@ def check(ctx, run):
             if len(cash_calls) != nt:
                 problems.append(f"{len(cash_calls)} cash evaluations")
             for k, e in ev:
-                if k == "simulate" and e.get("fn", "").endswith("_get_price"):
+                if k == "simulate" and not e.get("fn", "").startswith("pfhedge.instruments"):   # the hedger's own request, from whichever helper
                     kw = dict(e["kwargs"])
                     for kk, vv in zip(("n_paths", "init_state"), e["args"]):
                         kw[kk] = vv
